@@ -5,13 +5,26 @@ use crate::Prop;
 pub mod common;
 pub mod corr;
 pub mod c02;
+pub mod c03;
 pub mod c04;
+pub mod c10;
+pub mod c11;
+pub mod c13;
+pub mod c19;
+pub mod c20;
+pub mod css_common;
 
 pub fn get(id: &str) -> Option<Box<dyn Prop>> {
     match id {
         "CORR" => Some(Box::new(corr::Corr)),
         "C02" => Some(Box::new(c02::C02)),
+        "C03" => Some(Box::new(c03::C03)),
         "C04" => Some(Box::new(c04::C04)),
+        "C10" => Some(Box::new(c10::C10)),
+        "C11" => Some(Box::new(c11::C11)),
+        "C13" => Some(Box::new(c13::C13)),
+        "C19" => Some(Box::new(c19::C19)),
+        "C20" => Some(Box::new(c20::C20)),
         _ => None,
     }
 }
